@@ -643,3 +643,594 @@ Proof.
 Qed.
 Lemma shared_atts_no_runs : shared_atts [] = Raise IndexError.
 Proof. reflexivity. Qed.
+
+(* ====================================================================== *)
+(* 6. splitlines: the cells of the lines                                     *)
+(* the sub-lists of [l] of the given lengths, the first at offset [off], consecutive
+   ones [gap] items apart (reference: plain list function) *)
+Fixpoint pieces_at {A} (l : list A) (off gap : nat) (lens : list nat) : list (list A) :=
+  match lens with
+  | [] => []
+  | n :: r => sub l off (off + n) :: pieces_at l (off + n + gap) gap r
+  end.
+
+Lemma spans_ok_le start n spans : spans_ok start n spans -> start <= n.
+Proof.
+  revert start. induction spans as [|[a b] r IH]; intros start; cbn [spans_ok]; [lia|].
+  intros (H1 & H2 & H3). apply IH in H3. lia.
+Qed.
+
+(* the pieces outside spans of one width are the pieces at offsets that width apart *)
+Lemma cut_from_pieces_at {A B} (L : list A) (T : list B) (g : nat) : length L = length T ->
+  forall spans start, spans_ok start (length T) spans ->
+    Forall (fun s => snd s = fst s + g) spans ->
+    cut_from L start spans = pieces_at L start g (map (@length B) (cut_from T start spans)).
+Proof.
+  intros EL. induction spans as [|[a b] r IH]; intros start OK W.
+  - cbn [spans_ok] in OK. cbn [cut_from map pieces_at]. f_equal.
+    rewrite skipn_length. replace (start + (length T - start)) with (length L) by lia.
+    symmetry. apply sub_to_end.
+  - cbn [spans_ok] in OK. destruct OK as (H1 & H2 & H3).
+    inversion W as [|? ? Wa Wr]; subst. cbn [fst snd] in Wa.
+    pose proof (spans_ok_le _ _ _ H3) as Hb.
+    cbn [cut_from map pieces_at]. rewrite sub_length.
+    replace (start + Nat.min (a - start) (length T - start)) with a by lia.
+    f_equal. replace (a + g) with b by lia. apply IH; assumption.
+Qed.
+
+Lemma lit_scan_width sep : forall s pos skip,
+  Forall (fun sp => snd sp = fst sp + length sep) (nat_spans (lit_scan sep s pos skip)) \/ (pos < 0)%Z.
+Proof.
+  induction s as [|c r IH]; intros pos skip; cbn [lit_scan].
+  - destruct (Z_lt_dec pos 0) as [N|N]; [now right|left].
+    destruct sep; repeat constructor. cbn. lia.
+  - destruct (Z_lt_dec pos 0) as [N|N]; [now right|].
+    destruct skip as [|k].
+    + destruct (is_prefix sep (c :: r)).
+      * destruct (IH (pos + 1)%Z (length sep - 1)) as [H|H]; [|lia]. left.
+        cbn [nat_spans map fst snd]. constructor; [cbn [fst snd]; lia|exact H].
+      * destruct (IH (pos + 1)%Z 0) as [H|H]; [now left|lia].
+    + destruct (IH (pos + 1)%Z k) as [H|H]; [now left|lia].
+Qed.
+
+Lemma pieces_at_removelast {A} (l : list A) gap : forall lens off,
+  pieces_at l off gap (removelast lens) = removelast (pieces_at l off gap lens).
+Proof.
+  induction lens as [|n r IH]; intros off; [reflexivity|].
+  destruct r as [|m r']; [reflexivity|].
+  change (removelast (n :: m :: r')) with (n :: removelast (m :: r')).
+  cbn [pieces_at] in *. rewrite IH. reflexivity.
+Qed.
+
+Lemma pieces_at_concat {A} (l : list A) : forall lens off,
+  concat (pieces_at l off 0 lens) = sub l off (off + fold_right Nat.add 0 lens).
+Proof.
+  induction lens as [|n r IH]; intros off; cbn [pieces_at concat fold_right].
+  - rewrite sub_empty by lia. reflexivity.
+  - rewrite IH. replace (off + n + 0) with (off + n) by lia.
+    rewrite sub_app by lia. f_equal. lia.
+Qed.
+
+Lemma sub_all {A} (l : list A) : sub l 0 (length l) = l.
+Proof. now rewrite sub_to_end. Qed.
+
+(* the reference: the lines with their ends kept are the text cut up *)
+Lemma concat_lines_go_true s : forall cur, concat (lines_go true s cur) = rev cur ++ s.
+Proof.
+  induction s as [|c r IH]; intros cur; cbn [lines_go].
+  - destruct cur as [|x cur]; [reflexivity|]. cbn [concat]. now rewrite !app_nil_r.
+  - destruct (N.eqb c 10) eqn:E.
+    + apply N.eqb_eq in E. subst c. cbn [concat]. rewrite IH. cbn [rev app]. now rewrite <- app_assoc.
+    + rewrite IH. cbn [rev]. now rewrite <- app_assoc.
+Qed.
+
+Theorem concat_str_splitlines_keepends s : concat (str_splitlines true s) = s.
+Proof. unfold str_splitlines. now rewrite concat_lines_go_true. Qed.
+
+Lemma length_concat {A} (ls : list (list A)) : length (concat ls) = fold_right Nat.add 0 (map (@length A) ls).
+Proof. induction ls as [|x r IH]; [reflexivity|]. cbn [concat map fold_right]. now rewrite app_length, IH. Qed.
+
+(* the running sums of keepends=True, explicitly *)
+Lemma dec_last_accumulate : forall (ps : list str) (a : Z), ps <> [] ->
+  dec_last (accumulate a (map (fun p => (Z.of_nat (length p) + 1)%Z) ps)) =
+  Ok (accumulate a (map (fun p => Z.of_nat (length p)) (addnl ps))).
+Proof.
+  induction ps as [|p ps IH]; intros a H; [congruence|].
+  destruct ps as [|q r].
+  - cbn [map accumulate addnl removelast last app]. change [?x] with ([] ++ [x]) at 1.
+    rewrite dec_last_snoc. cbn [app]. do 2 f_equal. lia.
+  - rewrite addnl_cons by discriminate.
+    rewrite (map_cons _ p (q :: r)), (map_cons _ (p ++ newline)), !accumulate_cons.
+    rewrite dec_last_cons by (cbn [map accumulate]; discriminate).
+    rewrite IH by discriminate.
+    rewrite app_length. cbn [length newline].
+    replace (Z.of_nat (length p + 1)) with (Z.of_nat (length p) + 1)%Z by lia. reflexivity.
+Qed.
+
+Lemma zslices_accumulate {A} (L : list A) : forall (lens : list nat) (a : Z), (0 <= a)%Z ->
+  zslices L (combine (a :: accumulate a (map Z.of_nat lens)) (accumulate a (map Z.of_nat lens))) =
+  pieces_at L (Z.to_nat a) 0 lens.
+Proof.
+  induction lens as [|n r IH]; intros a Ha; [reflexivity|].
+  rewrite map_cons, accumulate_cons. cbn [combine zslices map fst snd pieces_at].
+  rewrite sub_as_pyslice by lia. f_equal; [f_equal; lia|].
+  replace (Z.to_nat a + n + 0) with (Z.to_nat (a + Z.of_nat n)) by lia.
+  apply (IH (a + Z.of_nat n)%Z). lia.
+Qed.
+
+(* the final rule `lines if lines[-1] else lines[:-1]`, texts and cells *)
+Lemma finish_lines_cells (lines : list fmtstr) : lines <> [] ->
+  exists rs, bind (last_item lines) (fun l => Ok (if (len l =? 0)%Z then removelast lines else lines)) = Ok rs /\
+             map text rs = fixlast (map text lines) /\
+             ((rs = lines) \/ (rs = removelast lines)).
+Proof.
+  intros H. destruct (rev_cons_case lines) as [->|(init & l & ->)]; [congruence|].
+  rewrite last_item_snoc. cbn [bind]. eexists. split; [reflexivity|].
+  unfold fixlast. rewrite map_app. cbn [map]. rewrite last_snoc.
+  rewrite len_text. destruct (text l) as [|c t] eqn:E; cbn [length is_nil].
+  - replace (Z.of_nat 0 =? 0)%Z with true by reflexivity.
+    rewrite !removelast_snoc. split; [reflexivity|]. now right.
+  - replace (Z.of_nat (S (length t)) =? 0)%Z with false by lia.
+    rewrite map_app. cbn [map]. rewrite E. split; [reflexivity|]. now left.
+Qed.
+
+Lemma finish_pieces (L : list cell) gap (lines rs : list fmtstr) :
+  map cells lines = pieces_at L 0 gap (map (@length char) (map text lines)) ->
+  rs = lines \/ rs = removelast lines ->
+  map cells rs = pieces_at L 0 gap (map (@length char) (map text rs)).
+Proof.
+  intros H [->| ->]; [exact H|].
+  now rewrite !map_removelast, pieces_at_removelast, <- H.
+Qed.
+
+(* f.splitlines(keepends): the texts are str.splitlines'; every line is the sub-list of
+   the per-character cells of f at its offset (lines 1 apart - the newline - without
+   keepends, adjacent with keepends); with keepends the lines, concatenated, are cells f *)
+Theorem splitlines_cells f keep :
+  exists rs, splitlines f keep = Ok rs /\
+    map text rs = str_splitlines keep (text f) /\
+    map cells rs = pieces_at (cells f) 0 (if keep then 0 else 1)
+                             (map (@length char) (str_splitlines keep (text f))) /\
+    (keep = true -> concat (map cells rs) = cells f).
+Proof.
+  unfold splitlines.
+  destruct (split_lit_cells (fun _ => false) f newline ltac:(discriminate)) as (lines & HS & HC & OK & _).
+  destruct (split_lit_text (fun _ => false) f newline ltac:(discriminate)) as (lines' & HS' & HT).
+  rewrite HS in HS'. injection HS' as <-.
+  rewrite HS. cbn [bind]. unfold str_splitlines.
+  assert (NE : lines <> []).
+  { apply (map_text_nonempty lines _ HT). apply split_go_nonempty. }
+  destruct keep.
+  - (* keepends = True *)
+    assert (EL : map (fun line => (len line + 1)%Z) lines =
+                 map (fun p => (Z.of_nat (length p) + 1)%Z) (map text lines)).
+    { rewrite map_map. apply map_ext. intros r. now rewrite len_text. }
+    destruct (reslice_addnl (map text lines) [] ltac:(rewrite HT; apply split_go_nonempty)) as (ends & E1 & E2).
+    cbn [length app] in E1, E2. change (Z.of_nat 0) with 0%Z in E1, E2.
+    assert (EE : ends = accumulate 0 (map Z.of_nat (map (@length char) (addnl (map text lines))))).
+    { rewrite dec_last_accumulate in E1 by (rewrite HT; apply split_go_nonempty).
+      injection E1 as <-. now rewrite map_map. }
+    rewrite EL, E1. cbn [bind].
+    rewrite (map_res_ok _ (fun p => slice_of f (Some (fst p)) (Some (snd p))))
+      by (intros [a b] _; apply getitem_slice_ok).
+    cbn [bind].
+    set (lines2 := map (fun p => slice_of f (Some (fst p)) (Some (snd p))) (combine (0%Z :: ends) ends)).
+    assert (T2 : map text lines2 = addnl (map text lines)).
+    { assert (J : join_lists newline (map text lines) = text f)
+        by (rewrite HT; apply join_str_split; discriminate).
+      rewrite J in E2. rewrite <- E2. subst lines2. rewrite map_map. unfold zslices.
+      apply map_ext. intros [a b]. apply slice_of_text. }
+    assert (C2 : map cells lines2 = pieces_at (cells f) 0 0 (map (@length char) (map text lines2))).
+    { rewrite T2. subst lines2. rewrite map_map.
+      transitivity (zslices (cells f) (combine (0%Z :: ends) ends)).
+      - unfold zslices. apply map_ext. intros [a b]. apply slice_of_cells.
+      - rewrite EE. apply (zslices_accumulate (cells f) _ 0%Z). lia. }
+    destruct (finish_lines_cells lines2) as (rs & R1 & R2 & R3).
+    { apply (map_text_nonempty lines2 _ T2). apply addnl_nonempty. }
+    assert (TX : map text rs = lines_go true (text f) []).
+    { rewrite R2, T2, HT. symmetry. apply lines_go_true. }
+    assert (CX : map cells rs = pieces_at (cells f) 0 0 (map (@length char) (lines_go true (text f) []))).
+    { rewrite <- TX. apply (finish_pieces _ _ lines2); assumption. }
+    exists rs. split; [exact R1|]. split; [exact TX|]. split; [exact CX|].
+    intros _. rewrite CX, pieces_at_concat, <- length_concat.
+    fold (str_splitlines true (text f)). rewrite concat_str_splitlines_keepends.
+    rewrite <- cells_length_text. apply sub_all.
+  - cbn [bind]. destruct (finish_lines_cells lines NE) as (rs & R1 & R2 & R3).
+    assert (TX : map text rs = lines_go false (text f) []).
+    { rewrite R2, HT. symmetry. apply lines_go_false. }
+    assert (C1 : map cells lines = pieces_at (cells f) 0 1 (map (@length char) (map text lines))).
+    { rewrite HC, HT. unfold cut_spans. rewrite <- lit_spans_split by discriminate. unfold cut_spans.
+      apply cut_from_pieces_at.
+      - apply cells_length_text.
+      - rewrite <- cells_length_text. exact OK.
+      - destruct (lit_scan_width newline (text f) 0%Z 0) as [W|W]; [exact W|lia]. }
+    exists rs. split; [exact R1|]. split; [exact TX|]. split; [|discriminate].
+    rewrite <- TX. apply (finish_pieces _ _ lines); assumption.
+Qed.
+
+Example splitlines_cells_nonvacuous :
+  let f := [C [97; 10]%N (A 2 0 0 0 0 0 0 0); C [98; 10; 10; 99]%N (A 0 3 1 0 0 0 0 0)] in
+  (exists rs, splitlines f true = Ok rs /\ length rs = 4 /\ concat (map cells rs) = cells f) /\
+  (exists rs, splitlines f false = Ok rs /\
+     map cells rs = [[(97, Sg 2 0 0 0 0 0 0 0)]; [(98, Sg 0 3 1 0 0 0 0 0)]; []; [(99, Sg 0 3 1 0 0 0 0 0)]]%N).
+Proof. split; eexists; vm_compute; repeat split. Qed.
+
+(* ====================================================================== *)
+(* 7. what "shared" means on the cells: order facts about sgr_le / meet_sgr *)
+Lemma color_le_refl a : color_le a a = true.
+Proof. destruct a as [c|]; [apply color_eqb_refl|reflexivity]. Qed.
+
+Lemma color_eqb_eq a b : color_eqb a b = true -> a = b.
+Proof. destruct a, b; cbn; congruence. Qed.
+
+Lemma color_le_trans a b c : color_le a b = true -> color_le b c = true -> color_le a c = true.
+Proof.
+  destruct a as [x|]; [|reflexivity]. destruct b as [y|]; [|discriminate]. cbn [color_le opt_eqb].
+  intros H1 H2. apply color_eqb_eq in H1. subst y. exact H2.
+Qed.
+
+Lemma implb_trans a b c : implb a b = true -> implb b c = true -> implb a c = true.
+Proof. destruct a, b, c; cbn; congruence. Qed.
+
+Lemma sgr_le_parts a b : sgr_le a b = true <->
+  (color_le (s_fg a) (s_fg b) = true /\ color_le (s_bg a) (s_bg b) = true /\
+   implb (s_bold a) (s_bold b) = true /\ implb (s_dark a) (s_dark b) = true /\
+   implb (s_italic a) (s_italic b) = true /\ implb (s_underline a) (s_underline b) = true /\
+   implb (s_blink a) (s_blink b) = true /\ implb (s_invert a) (s_invert b) = true).
+Proof. unfold sgr_le. rewrite !andb_true_iff. tauto. Qed.
+
+Lemma sgr_le_refl a : sgr_le a a = true.
+Proof. apply sgr_le_parts. rewrite !color_le_refl. repeat split; apply Bool.implb_same. Qed.
+
+Lemma sgr_le_trans a b c : sgr_le a b = true -> sgr_le b c = true -> sgr_le a c = true.
+Proof.
+  rewrite !sgr_le_parts. intros (A1 & A2 & A3 & A4 & A5 & A6 & A7 & A8) (B1 & B2 & B3 & B4 & B5 & B6 & B7 & B8).
+  repeat split; first [eapply color_le_trans; eassumption | eapply implb_trans; eassumption].
+Qed.
+
+Lemma all_color_below get l t : In t l -> color_le (all_color get l) (get t) = true.
+Proof.
+  destruct l as [|s r]; [intros []|]. cbn [all_color]. intros H.
+  destruct (get s) as [c|] eqn:G; [|reflexivity].
+  destruct (forallb (fun t0 => opt_eqb color_eqb (get t0) (Some c)) r) eqn:F; [|reflexivity].
+  cbn [color_le]. destruct H as [<-|H].
+  - rewrite G. apply color_eqb_refl.
+  - rewrite forallb_forall in F. now apply F.
+Qed.
+
+Lemma all_flag_below (flag : sgr -> bool) l t : In t l -> implb (forallb flag l) (flag t) = true.
+Proof.
+  intros H. destruct (forallb flag l) eqn:F; [|reflexivity].
+  rewrite forallb_forall in F. cbn. now apply F.
+Qed.
+
+(* the shared formatting is shown by every state *)
+Lemma meet_sgr_below l t : In t l -> sgr_le (meet_sgr l) t = true.
+Proof.
+  intros H. apply sgr_le_parts. unfold meet_sgr.
+  cbn [s_fg s_bg s_bold s_dark s_italic s_underline s_blink s_invert].
+  repeat split; first [now apply all_color_below | now apply all_flag_below].
+Qed.
+
+(* the state with the background taken away; only a background *)
+Definition drop_bg (st : sgr) : sgr :=
+  mkSgr (s_fg st) None (s_bold st) (s_dark st) (s_italic st) (s_underline st) (s_blink st) (s_invert st).
+Definition only_bg (bg : option color) : sgr := mkSgr None bg false false false false false false.
+
+Lemma drop_bg_le st : sgr_le (drop_bg st) st = true.
+Proof. apply sgr_le_parts. cbn. rewrite color_le_refl. repeat split; apply Bool.implb_same. Qed.
+
+Lemma le_drop_bg m st : s_bg m = None -> sgr_le m st = true -> sgr_le m (drop_bg st) = true.
+Proof. rewrite !sgr_le_parts. cbn. intros ->. tauto. Qed.
+
+Lemma only_bg_le m : sgr_le (only_bg (s_bg m)) m = true.
+Proof. apply sgr_le_parts. cbn. rewrite color_le_refl. repeat split. Qed.
+
+(* ====================================================================== *)
+(* 8. ljust / rjust                                                          *)
+(* what the result of f.ljust / f.rjust is, on the per-character cells [l] of f and the
+   state [m] = eff (shared_atts f) (for f with a character: what every character shows):
+     fillchar given       every character AND the padding carry m only;
+     no fillchar, m has a background
+                          the characters are untouched, the padding is spaces that carry
+                          that background and nothing else;
+     no fillchar, no shared background
+                          every character loses its background, the padding is spaces
+                          that carry m *)
+Definition just_cells (left : bool) (l : list cell) (m : sgr) (width : Z) (fill : option char) : list cell :=
+  let n := Z.to_nat (width - Z.of_nat (length l)) in
+  let glue (orig pad : list cell) := if left then orig ++ pad else pad ++ orig in
+  match fill with
+  | Some c => glue (map (fun cl : cell => (fst cl, m)) l) (repeat (c, m) n)
+  | None =>
+      match s_bg m with
+      | Some bg => glue l (repeat (space_char, only_bg (Some bg)) n)
+      | None => glue (map (fun cl : cell => (fst cl, drop_bg (snd cl))) l) (repeat (space_char, m) n)
+      end
+  end.
+
+(* the fillchar argument as Python sees it *)
+Definition fill_char (fill : option str) : option (option char) :=
+  match fill with
+  | None => Some None
+  | Some [c] => Some (Some c)
+  | Some _ => None                  (* TypeError: must be exactly one character long *)
+  end.
+
+Lemma map_const_repeat {X Y} (y : Y) (x : X) n : map (fun _ => y) (repeat x n) = repeat y n.
+Proof. induction n as [|n IH]; [reflexivity|]. cbn. now rewrite IH. Qed.
+
+Lemma map_pair_repeat (c : char) (st : sgr) n : map (fun x => (x, st)) (repeat c n) = repeat (c, st) n.
+Proof. induction n as [|n IH]; [reflexivity|]. cbn. now rewrite IH. Qed.
+
+Lemma cells_retag f (g : sgr -> sgr) (h : atts -> atts) :
+  (forall a, eff (h a) = g (eff a)) ->
+  cells (map (fun c => mkChunk (c_s c) (h (c_a c))) f) = map (fun cl : cell => (fst cl, g (snd cl))) (cells f).
+Proof.
+  intros H. induction f as [|c f IH]; [reflexivity|].
+  cbn [map]. rewrite !cells_cons, map_app, IH. f_equal.
+  unfold chunk_cells. cbn [c_s c_a]. rewrite map_map. apply map_ext. intros x. cbn [fst snd]. now rewrite H.
+Qed.
+
+Lemma eff_remove_bg a : eff (Atts.att_remove [Atts.k_bg] a) = drop_bg (eff a).
+Proof. destruct a. reflexivity. Qed.
+
+Lemma cells_bg_removed f :
+  cells (Atts.new_with_atts_removed f [Atts.k_bg]) = map (fun cl : cell => (fst cl, drop_bg (snd cl))) (cells f).
+Proof. unfold Atts.new_with_atts_removed. apply cells_retag. apply eff_remove_bg. Qed.
+
+Lemma map_fst_retag (g : sgr -> sgr) (l : list cell) : map fst (map (fun cl : cell => (fst cl, g (snd cl))) l) = map fst l.
+Proof. rewrite map_map. reflexivity. Qed.
+
+Lemma cells_of_text f (st : sgr) : map (fun x : char => (x, st)) (text f) = map (fun cl : cell => (fst cl, st)) (cells f).
+Proof. rewrite (text_cells f), map_map. apply map_ext. intros cl. reflexivity. Qed.
+
+(* ... in particular the text is str.ljust / str.rjust of the text *)
+Definition py_just (left : bool) (s : str) (width : Z) (c : char) : str :=
+  if left then py_ljust s width c else py_rjust s width c.
+Definition fill_or_space (fc : option char) : char := match fc with Some c => c | None => space_char end.
+
+(* scope of the model of fmtstr(text, **atts): a text that FmtStr.from_str does not parse.
+   Only the fillchar branch passes text of f to fmtstr(); the padding of the other
+   branches is spaces. *)
+Definition just_scope (left : bool) (f : fmtstr) (width : Z) (fc : option char) : Prop :=
+  match fc with
+  | Some c => has_esc_intro (py_just left (text f) width c) = false
+  | None => True
+  end.
+
+(* the three branches, for any f on which shared_atts answers *)
+Theorem just_exact left f width fill fc sh :
+  shared_atts f = Ok sh -> fill_char fill = Some fc -> just_scope left f width fc ->
+  exists r, just left f width fill = Ok r /\ cells r = just_cells left (cells f) (eff sh) width fc.
+Proof.
+  intros SH FC _. unfold just, just_cells. rewrite cells_length_text.
+  destruct fill as [[|c [|d t]]|]; try discriminate; injection FC as <-.
+  - (* fillchar *)
+    cbn [builtin_just bind]. rewrite SH. cbn [bind]. eexists. split; [reflexivity|].
+    rewrite fmtstr_with_cells. unfold py_ljust, py_rjust.
+    destruct left; rewrite map_app, map_pair_repeat, cells_of_text; reflexivity.
+  - rewrite SH. cbn [bind]. change (s_bg (eff sh)) with (a_bg sh).
+    destruct (a_bg sh) as [bg|] eqn:BG.
+    + destruct (Z.to_nat (width - Z.of_nat (length (text f)))) as [|n] eqn:EN; cbn [repeat].
+      * exists f. split; [reflexivity|]. destruct left; [now rewrite app_nil_r|reflexivity].
+      * eexists. split; [reflexivity|].
+        destruct left; rewrite add_cells; cbn [op_cells]; rewrite fmtstr_with_cells;
+          change (space_char :: repeat space_char n) with (repeat space_char (S n));
+          rewrite map_pair_repeat; reflexivity.
+    + destruct (Z.to_nat (width - Z.of_nat (length (text f)))) as [|n] eqn:EN; cbn [repeat].
+      * eexists. split; [reflexivity|]. rewrite cells_bg_removed.
+        destruct left; [now rewrite app_nil_r|reflexivity].
+      * cbn [bind]. eexists. split; [reflexivity|].
+        destruct left; rewrite add_cells; cbn [op_cells]; rewrite fmtstr_with_cells, cells_bg_removed;
+          change (space_char :: repeat space_char n) with (repeat space_char (S n));
+          rewrite map_pair_repeat; reflexivity.
+Qed.
+
+Lemma map_fst_repeat (c : char) (st : sgr) n : map fst (repeat (c, st) n) = repeat c n.
+Proof. induction n as [|n IH]; [reflexivity|]. cbn. now rewrite IH. Qed.
+
+Lemma map_fst_tagged (h : cell -> sgr) (l : list cell) : map fst (map (fun cl : cell => (fst cl, h cl)) l) = map fst l.
+Proof. rewrite map_map. reflexivity. Qed.
+
+Lemma just_cells_text left l m width fc :
+  map fst (just_cells left l m width fc) = py_just left (map fst l) width (fill_or_space fc).
+Proof.
+  unfold just_cells, py_just, py_ljust, py_rjust. rewrite map_length.
+  destruct fc as [c|]; [|destruct (s_bg m)]; destruct left; cbn [fill_or_space];
+    rewrite map_app, map_fst_repeat, ?map_map; reflexivity.
+Qed.
+
+Theorem just_text left f width fill fc : f <> [] -> fill_char fill = Some fc -> just_scope left f width fc ->
+  exists r, just left f width fill = Ok r /\ text r = py_just left (text f) width (fill_or_space fc).
+Proof.
+  intros NE FC SC. destruct (shared_atts_ok f NE) as [sh SH].
+  destruct (just_exact left f width fill fc sh SH FC SC) as (r & R1 & R2).
+  exists r. split; [exact R1|]. now rewrite !text_cells, R2, just_cells_text.
+Qed.
+
+(* for f with at least one character the state m is what every character shows *)
+Theorem just_cells_shared left f width fill fc :
+  cells f <> [] -> fill_char fill = Some fc -> just_scope left f width fc ->
+  exists r, just left f width fill = Ok r /\
+    cells r = just_cells left (cells f) (meet_sgr (states (cells f))) width fc.
+Proof.
+  intros NE FC SC. destruct (shared_atts_meet f NE) as (sh & SH & EM).
+  destruct (just_exact left f width fill fc sh SH FC SC) as (r & R1 & R2).
+  exists r. split; [exact R1|]. now rewrite R2, EM.
+Qed.
+
+(* no formatting that no character had: the result is the original characters, in order,
+   with the padding before or after them; every original character shows at most what it
+   showed in f and at least what all characters of f show; a padding cell shows only what
+   EVERY character of f shows *)
+Definition padding_state (m : sgr) (fc : option char) : sgr :=
+  match fc with
+  | Some _ => m
+  | None => match s_bg m with Some bg => only_bg (Some bg) | None => m end
+  end.
+
+Lemma In_states (l : list cell) cl : In cl l -> In (snd cl) (states l).
+Proof. intros H. unfold states. now apply in_map. Qed.
+
+Lemma Forall2_retag (P : cell -> cell -> Prop) (g : cell -> cell) (l : list cell) :
+  (forall cl, In cl l -> P (g cl) cl) -> Forall2 P (map g l) l.
+Proof.
+  induction l as [|x l IH]; intros H; [constructor|]. cbn [map]. constructor.
+  - apply H. now left.
+  - apply IH. intros cl Hc. apply H. now right.
+Qed.
+
+Theorem just_no_new_formatting left f width fill fc :
+  cells f <> [] -> fill_char fill = Some fc -> just_scope left f width fc ->
+  let m := meet_sgr (states (cells f)) in
+  let n := Z.to_nat (width - Z.of_nat (length (cells f))) in
+  exists r orig,
+    just left f width fill = Ok r /\
+    let pad := repeat (fill_or_space fc, padding_state m fc) n in
+    cells r = (if left then orig ++ pad else pad ++ orig) /\
+    Forall2 (fun o c => fst o = fst c /\ sgr_le (snd o) (snd c) = true /\ sgr_le m (snd o) = true)
+            orig (cells f) /\
+    (forall c, In c (cells f) -> sgr_le (padding_state m fc) (snd c) = true).
+Proof.
+  intros NE FC SC m n. destruct (just_cells_shared left f width fill fc NE FC SC) as (r & R1 & R2).
+  fold m in R2.
+  assert (LE : forall c, In c (cells f) -> sgr_le m (snd c) = true).
+  { intros c Hc. apply meet_sgr_below. now apply In_states. }
+  assert (PAD : forall c, In c (cells f) -> sgr_le (padding_state m fc) (snd c) = true).
+  { intros c Hc. apply (sgr_le_trans _ m); [|now apply LE].
+    unfold padding_state. destruct fc; [apply sgr_le_refl|].
+    destruct (s_bg m) as [bg|] eqn:BG; [|apply sgr_le_refl]. rewrite <- BG. apply only_bg_le. }
+  unfold just_cells in R2. fold n in R2. exists r.
+  destruct fc as [c|]; [|destruct (s_bg m) as [bg|] eqn:BG].
+  - exists (map (fun cl : cell => (fst cl, m)) (cells f)). split; [exact R1|]. split; [exact R2|]. split; [|exact PAD].
+    apply Forall2_retag. intros cl Hc. cbn [fst snd]. split; [reflexivity|]. split; [now apply LE|apply sgr_le_refl].
+  - exists (cells f). split; [exact R1|]. split; [unfold padding_state; rewrite BG; exact R2|]. split; [|exact PAD].
+    rewrite <- (map_id (cells f)) at 1. apply Forall2_retag. intros cl Hc.
+    split; [reflexivity|]. split; [apply sgr_le_refl|now apply LE].
+  - exists (map (fun cl : cell => (fst cl, drop_bg (snd cl))) (cells f)).
+    split; [exact R1|]. split; [unfold padding_state; rewrite BG; exact R2|]. split; [|exact PAD].
+    apply Forall2_retag. intros cl Hc. cbn [fst snd]. split; [reflexivity|]. split; [apply drop_bg_le|].
+    apply le_drop_bg; [exact BG|now apply LE].
+Qed.
+
+(* the error branches: the builtin's TypeError for a fillchar that is not one character
+   (raised before shared_atts is looked at), IndexError for a FmtStr without runs *)
+Theorem just_bad_fillchar left f width fc : fill_char (Some fc) = None ->
+  just left f width (Some fc) = Raise TypeError.
+Proof. destruct fc as [|c [|d t]]; [reflexivity|discriminate|reflexivity]. Qed.
+
+Theorem just_no_runs left width fill fc : fill_char fill = Some fc ->
+  just left [] width fill = Raise IndexError.
+Proof. destruct fill as [[|c [|d t]]|]; try discriminate; reflexivity. Qed.
+
+(* NOT true: "the original characters keep their own cells".  Without a fillchar and
+   without a background shared by all characters, every character loses its background
+   (new_with_atts_removed("bg")) - even when nothing is padded; with a fillchar every
+   character is reduced to the shared formatting. *)
+Example just_keeps_own_cells_refuted :
+  let f := [C [97]%N (A 0 2 0 0 0 0 0 0); C [98]%N (A 0 5 0 0 0 0 0 0)] in   (* on_red('a') + on_blue('b') *)
+  (exists r, ljust f 4 None = Ok r /\ firstn 2 (cells r) <> cells f /\
+             cells r = [(97, sgr_default); (98, sgr_default); (32, sgr_default); (32, sgr_default)]%N) /\
+  (exists r, ljust f 1 None = Ok r /\ cells r <> cells f) /\
+  (exists r, rjust [C [97]%N (A 2 0 1 0 0 0 0 0); C [98]%N (A 2 0 0 0 0 0 0 0)] 3 (Some [42%N]) = Ok r /\
+             cells r = [(42, Sg 2 0 0 0 0 0 0 0); (97, Sg 2 0 0 0 0 0 0 0); (98, Sg 2 0 0 0 0 0 0 0)]%N).
+Proof. repeat split; eexists; vm_compute; repeat split; discriminate. Qed.
+
+Example just_nonvacuous :
+  let f := [C [97]%N (A 2 3 1 0 0 0 0 0); C []%N (A 5 0 0 0 0 0 0 0); C [98]%N (A 2 3 0 0 0 0 0 0)] in
+  cells f <> [] /\ fill_char None = Some None /\ fill_char (Some [42%N]) = Some (Some 42%N) /\
+  just_scope true f 4 None /\ just_scope false f 3 (Some 42%N) /\
+  meet_sgr (states (cells f)) = Sg 2 3 0 0 0 0 0 0 /\
+  (exists r, ljust f 4 None = Ok r /\
+     cells r = [(97, Sg 2 3 1 0 0 0 0 0); (98, Sg 2 3 0 0 0 0 0 0); (32, Sg 0 3 0 0 0 0 0 0); (32, Sg 0 3 0 0 0 0 0 0)]%N) /\
+  (exists r, rjust f 3 (Some [42%N]) = Ok r /\
+     cells r = [(42, Sg 2 3 0 0 0 0 0 0); (97, Sg 2 3 0 0 0 0 0 0); (98, Sg 2 3 0 0 0 0 0 0)]%N).
+Proof. vm_compute. repeat split; try discriminate; eexists; split; reflexivity. Qed.
+
+(* ====================================================================== *)
+(* 9. the __getattr__ wrapper, for an ARBITRARY str method                   *)
+(* the cells of fmtstr(s, **atts): every character of s with the one state *)
+Definition tagged (st : sgr) (s : str) : list cell := map (fun x => (x, st)) s.
+
+Lemma delegate_list_ok (f : fmtstr) sh (l : list str) : shared_atts f = Ok sh ->
+  map_res (fun x => bind (shared_atts f) (fun shared => Ok (fmtstr_with x shared))) l =
+  Ok (map (fun x => fmtstr_with x sh) l).
+Proof. intros SH. apply map_res_ok. intros x _. now rewrite SH. Qed.
+
+Section Delegation.
+Context {X : Type}.
+Variable m : str -> mres X.          (* getattr(self.s, att)( *args, **kwargs) as a function of self.s *)
+
+(* a str answer: the same text, every character with exactly eff (shared_atts f) *)
+Theorem delegate_str_exact f s sh : m (text f) = MStr s -> shared_atts f = Ok sh -> has_esc_intro s = false ->
+  exists r, delegate m f = Ok (DFmt r) /\ text r = s /\ cells r = tagged (eff sh) s.
+Proof.
+  intros M SH _. unfold delegate. rewrite M, SH. cbn [bind]. eexists. split; [reflexivity|].
+  split; [apply fmtstr_with_text|apply fmtstr_with_cells].
+Qed.
+
+(* a list-of-str answer: likewise, item by item *)
+Theorem delegate_list_exact f l sh : m (text f) = MList l -> shared_atts f = Ok sh ->
+  Forall (fun s => has_esc_intro s = false) l ->
+  exists rs, delegate m f = Ok (DList rs) /\ map text rs = l /\ map cells rs = map (tagged (eff sh)) l.
+Proof.
+  intros M SH _. unfold delegate. rewrite M, (delegate_list_ok f sh l SH). cbn [bind].
+  eexists. split; [reflexivity|]. rewrite !map_map. split.
+  - rewrite <- (map_id l) at 2. apply map_ext. intros s. apply fmtstr_with_text.
+  - apply map_ext. intros s. apply fmtstr_with_cells.
+Qed.
+
+(* for f with at least one character: exactly the formatting shared by all characters,
+   hence nothing that not every character of f shows *)
+Theorem delegate_str f s : cells f <> [] -> m (text f) = MStr s -> has_esc_intro s = false ->
+  let sh := meet_sgr (states (cells f)) in
+  exists r, delegate m f = Ok (DFmt r) /\ text r = s /\ cells r = tagged sh s /\
+            (forall c, In c (cells f) -> sgr_le sh (snd c) = true).
+Proof.
+  intros NE M SC sh. destruct (shared_atts_meet f NE) as (a & SH & EM).
+  destruct (delegate_str_exact f s a M SH SC) as (r & R1 & R2 & R3).
+  exists r. split; [exact R1|]. split; [exact R2|]. split; [now rewrite R3, EM|].
+  intros c Hc. apply meet_sgr_below. now apply In_states.
+Qed.
+
+Theorem delegate_list f l : cells f <> [] -> m (text f) = MList l ->
+  Forall (fun s => has_esc_intro s = false) l ->
+  let sh := meet_sgr (states (cells f)) in
+  exists rs, delegate m f = Ok (DList rs) /\ map text rs = l /\ map cells rs = map (tagged sh) l /\
+             (forall c, In c (cells f) -> sgr_le sh (snd c) = true).
+Proof.
+  intros NE M SC sh. destruct (shared_atts_meet f NE) as (a & SH & EM).
+  destruct (delegate_list_exact f l a M SH SC) as (rs & R1 & R2 & R3).
+  exists rs. split; [exact R1|]. split; [exact R2|]. split; [now rewrite R3, EM|].
+  intros c Hc. apply meet_sgr_below. now apply In_states.
+Qed.
+
+(* anything else (int, bool, tuple, None) is passed through; an exception propagates;
+   neither looks at the runs *)
+Theorem delegate_other f x : m (text f) = MOther x -> delegate m f = Ok (DOther x).
+Proof. intros M. unfold delegate. now rewrite M. Qed.
+
+Theorem delegate_raise f e : m (text f) = MRaise e -> delegate m f = Raise e.
+Proof. intros M. unfold delegate. now rewrite M. Qed.
+
+(* a FmtStr without runs: self.shared_atts is self.chunks[0] -> IndexError as soon as a
+   piece of text has to be wrapped; an empty list is returned as it is *)
+Theorem delegate_no_runs :
+  (forall s, m [] = MStr s -> delegate m [] = Raise IndexError) /\
+  (forall s l, m [] = MList (s :: l) -> delegate m [] = Raise IndexError) /\
+  (m [] = MList [] -> delegate m [] = Ok (DList [])).
+Proof. repeat split; intros; unfold delegate; cbn [text flat_map]; rewrite H; reflexivity. Qed.
+End Delegation.
+
+(* str.upper (ASCII letters) and str.split(",")-like answers on bold(red("a")) + red("b,c") *)
+Example delegate_nonvacuous :
+  let f := [C [97]%N (A 2 0 1 0 0 0 0 0); C [98; 44; 99]%N (A 2 0 0 0 0 0 0 0)] in
+  let upper : str -> mres unit := fun s => MStr (map (fun c => if (N.leb 97 c && N.leb c 122)%bool then (c - 32)%N else c) s) in
+  let pieces : str -> mres unit := fun s => MList (str_split s [44%N]) in
+  cells f <> [] /\ meet_sgr (states (cells f)) = Sg 2 0 0 0 0 0 0 0 /\
+  (exists r, delegate upper f = Ok (DFmt r) /\
+     cells r = [(65, Sg 2 0 0 0 0 0 0 0); (66, Sg 2 0 0 0 0 0 0 0); (44, Sg 2 0 0 0 0 0 0 0); (67, Sg 2 0 0 0 0 0 0 0)]%N) /\
+  (exists rs, delegate pieces f = Ok (DList rs) /\
+     map cells rs = [[(97, Sg 2 0 0 0 0 0 0 0); (98, Sg 2 0 0 0 0 0 0 0)]; [(99, Sg 2 0 0 0 0 0 0 0)]]%N).
+Proof. vm_compute. repeat split; try discriminate; eexists; split; reflexivity. Qed.
